@@ -12,6 +12,7 @@ code->spec: the recorded steps (one event per statement at the return of its val
             after every recorded step.  Seeded random configurations beyond the enumerated vocabulary (longer lists,
             depth 3, every attribute) are judged by the trace specification only.
 """
+import hashlib
 import json
 import os
 import random
@@ -272,37 +273,45 @@ def name_class(n, tables):
     return 'v' if n in PLAIN else n
 
 
-def features(tables, names=(), exprs=(), more=()):
-    """the features of a statement that name its input class: special names it binds, selector kinds in its expressions"""
-    f = {name_class(n, tables) for n in names} - {'v'}
-    f = {'name=' + x for x in f}
-    for e in exprs:
-        for s in e:
-            if s['sel'] != 'none':
-                f.add({'key': 'keyed-lookup', 'idx': 'indexed-lookup', 'bad': 'malformed-segment'}[s['sel']])
+NAME_RULES = {'ReservedVariableName', 'RedefinedVariable', 'BadAssignment'}
+EXPR_RULES = {'UndefinedVariableReference', 'BadAttributeLookup', 'BadLoop'}
+
+
+def features(tables, names=(), exprs=(), more=(), about=None):
+    """the features of a statement that name its input class: special names it binds, selector kinds in its expressions.
+    about: the rule the specification applies to the statement; a rule about names says nothing about the expressions
+    and vice versa, so only the features the rule looks at are part of the class."""
+    f = set()
+    if about not in EXPR_RULES:
+        f = {'name=' + x for x in {name_class(n, tables) for n in names} - {'v'}}
+    if about not in NAME_RULES:
+        for e in exprs:
+            for s in e:
+                if s['sel'] != 'none':
+                    f.add({'key': 'keyed-lookup', 'idx': 'indexed-lookup', 'bad': 'malformed-segment'}[s['sel']])
     return '[' + ','.join(sorted(f | set(more))) + ']'
 
 
-def tok_class(t, tables):
+def tok_class(t, tables, about=None):
     k = t['k']
     arity = ['arity-mismatch'] if t['nfmt'] != len(t['args']) else []
     if k == 'define':
-        return 'define' + features(tables, t['names'], [t['src']])
+        return 'define' + features(tables, t['names'], [t['src']], about=about)
     if k in ('print', 'comment'):
-        return k + features(tables, (), t['args'], arity)
+        return k + features(tables, (), t['args'], arity, about=about)
     if k == 'write_file':
         keys = [] if set(t['kw']) == {'filename', 'contents'} else ['keys=' + ('+'.join(sorted(t['kw'])) or 'none')]
-        return 'write_file' + features(tables, (), t['args'] + [t['src']], arity + keys)
+        return 'write_file' + features(tables, (), t['args'] + [t['src']], arity + keys, about=about)
     if k == 'loop':
         kw = set(t['kw'])
         if kw == COLL:
-            return 'loop-collection' + features(tables, t['names'][:1], [t['src']])
+            return 'loop-collection' + features(tables, t['names'][:1], [t['src']], about=about)
         if {'map', 'body'} <= kw and kw <= {'map', 'body', 'key', 'value'}:
             form = {(True, True): 'key-and-value', (True, False): 'key', (False, True): 'value',
                     (False, False): 'neither-key-nor-value'}['key' in kw, 'value' in kw]
             names = [t['names'][0]] * ('key' in kw) + [t['names'][1]] * ('value' in kw)
-            same = ['key=value'] if len(names) == 2 and names[0] == names[1] else []
-            return f'loop-map:{form}' + features(tables, names, [t['src']], same)
+            same = ['key=value'] if len(names) == 2 and names[0] == names[1] and about not in EXPR_RULES else []
+            return f'loop-map:{form}' + features(tables, names, [t['src']], same, about=about)
         return 'loop-malformed:keywords=' + '+'.join(sorted(kw))
     return 'statement:' + k
 
@@ -471,8 +480,13 @@ class Findings:
             self.found[key] = [1, summary, replay]
 
 
-def compare(c, res, tables, fnd):
-    """spec -> code, step by step.  Returns True iff every step agrees with the prediction."""
+def req_key(req):
+    return tuple(json.dumps(e, sort_keys=True) for e in req)
+
+
+def compare(c, res, tables, fnd, pending):
+    """spec -> code, step by step.  Returns True iff every step agrees with the prediction.  A divergence in the request
+    block is put on `pending` (see attribute_requests)."""
     ev = res['events']
     pred = [dict(o, k='request' if i == 0 else 'stmt') for i, o in enumerate(c['obs'])]
     if c['verdict'] == 'accepted':
@@ -481,17 +495,21 @@ def compare(c, res, tables, fnd):
         pd = sorted(p['defined'], key=lambda d: d['n'])
         if p['verdict'] == e['verdict'] and (p['verdict'] not in ('running', 'accepted') or pd == e['defined']):
             continue
-        cls = req_class(c['req'], tables) if i == 0 else 'finish' if p['k'] == 'finish' else tok_class(c['prog'][i - 1], tables)
         if p['verdict'] != e['verdict'] and e['verdict'] not in SAMPLE_ERRORS | {'running', 'accepted'}:
-            key = f"{cls}:raised={e['verdict']}"           # no verdict of the validator at all
+            tail = f"raised={e['verdict']}"           # no verdict of the validator at all
             what = f"predicted {p['verdict']}, but {e['verdict']} was raised (no samplegen error)"
         elif p['verdict'] != e['verdict']:
-            key = f"{cls}:predicted={outcome(p['verdict'])}:observed={outcome(e['verdict'])}"
+            tail = f"predicted={outcome(p['verdict'])}:observed={outcome(e['verdict'])}"
             what = f"predicted {p['verdict']}, observed {e['verdict']}"
         else:
-            key = f"{cls}:defined-differs"
+            tail = 'defined-differs'
             what = f"variables in scope: predicted {pd}, observed {e['defined']}"
-        fnd.report(key, f'step {i} of {case_text(c)}: {what}', dict(case=c, events=ev, config=res.get('config')))
+        replay = dict(case=c, events=ev, config=res.get('config'))
+        if i == 0:
+            pending.append((c['req'], tail, f'step 0 of {case_text(c)}: {what}', replay))
+        else:
+            cls = 'finish' if p['k'] == 'finish' else tok_class(c['prog'][i - 1], tables, about=p['verdict'])
+            fnd.report(f'{cls}:{tail}', f'step {i} of {case_text(c)}: {what}', replay)
         return False
     if len(pred) != len(ev):
         fnd.report('steps:count-differs', f'{case_text(c)}: predicted {len(pred)} steps, observed {len(ev)}',
@@ -500,8 +518,36 @@ def compare(c, res, tables, fnd):
     return True
 
 
+def attribute_requests(pending, known, tables, fnd):
+    """A request block that diverges is reported under the smallest sub-list of its entries that diverges as well
+    (the enumerated scopes hold every sub-list), so that one defect has one key and not one per unrelated entry."""
+    for req, tail, summary, replay in pending:
+        known.setdefault(req_key(req), (req, tail))
+
+    def minimal(req):
+        for j in range(len(req)):
+            sub = req[:j] + req[j + 1:]
+            if req_key(sub) in known:
+                return minimal(sub)
+        return req
+
+    for req, tail, summary, replay in pending:
+        m, mtail = known[req_key(minimal(req))]
+        fnd.report(f'{req_class(m, tables)}:{mtail}', summary, replay)
+
+
+ACTION_OF = dict(define='Define', print='Format', comment='Format', write_file='WriteFile', loop='Loop', end='EndLoop',
+                 unknown='Invalid', multi='Invalid', empty='Invalid')
+
+
 def validate(chk, label, traces, owners, tables, fnd):
     """code -> spec: batches through SampleCfgTrace; total verdicts (validate_all re-runs after a rejection)."""
+    steps = chk.extra.setdefault('recorded_steps_by_action', {})
+    for t in traces:
+        for e in t['events']:
+            a = 'ValidateRequest' if e['ev'] == 'request' else 'Finish' if e['ev'] == 'finish' else ACTION_OF[e['tok']['k']]
+            a += ':accept' if e['verdict'] in ('running', 'accepted') else ':reject'
+            steps[a] = steps.get(a, 0) + 1
     pos = 0
     nruns = nacc = nrej = 0
     t0 = time.time()
@@ -557,6 +603,7 @@ def main(chk, args):
     sample_errors = SAMPLE_ERRORS
     fnd = Findings()
     seen = set()
+    diverging_requests = {}
     tables = None
     chk.extra['cases_by_cfg'] = {}; chk.extra['predicted_verdicts'] = {}
     for cfg, kw in emits:
@@ -568,7 +615,7 @@ def main(chk, args):
         del r2
         cases = []
         for c in cs:
-            k = hash(json.dumps([c['req'], c['prog']], sort_keys=True))
+            k = hashlib.blake2b(json.dumps([c['req'], c['prog']], sort_keys=True).encode(), digest_size=12).digest()
             if k not in seen:
                 seen.add(k); cases.append(c)
         del cs
@@ -576,15 +623,16 @@ def main(chk, args):
         t0 = time.time()
         results = run_all(cases, tables, procs)
         chk.extra.setdefault('validator_runs_wall_s', []).append([cfg, round(time.time() - t0, 1)])
-        traces, owners = [], []
+        traces, owners, pending = [], [], []
         for c, res in zip(cases, results):
             ev = res['events']
             if outcome(ev[-1]['verdict']) != res['plain'] or ev[-1]['verdict'] == 'running':
                 raise core.MachineryError(f"the observed run ({ev[-1]['verdict']}) and the plain run ({res['plain']}) differ: {case_text(c)}")
             chk.case(case_text(c), nontrivial=len(c['prog']) > 0 or len(c['req']) > 0)
             chk.extra['predicted_verdicts'][c['verdict']] = chk.extra['predicted_verdicts'].get(c['verdict'], 0) + 1
-            if compare(c, res, tables, fnd):        # a diverging behaviour is reported once, by the comparison
+            if compare(c, res, tables, fnd, pending):        # a diverging behaviour is reported once, by the comparison
                 traces.append(dict(events=ev)); owners.append(c)
+        attribute_requests(pending, diverging_requests, tables, fnd)
         if len(chk.samples) < 3 and cases:
             i = len(cases) // 2
             chk.sample(dict(case=case_text(cases[i]), predicted=cases[i]['verdict'], config=results[i].get('config'),
